@@ -75,7 +75,13 @@ def make_class(schema: dict) -> type:
         if fs["hasd"]:
             kw["default"] = project.build_value(fs["dflt"], fs)
         fields.append((name, t, dataclasses.field(**kw)))
-    cls = dataclasses.make_dataclass(schema["name"], fields, frozen=True, slots=True, kw_only=True,
+    bases = ()
+    if schema.get("base"):
+        # an entity class derived from another entity class: the first len(base fields) fields are inherited
+        base = make_class(schema["base"])
+        bases = (base,)
+        fields = fields[len(schema["base"]["fields"]):]
+    cls = dataclasses.make_dataclass(schema["name"], fields, bases=bases, frozen=True, slots=True, kw_only=True,
                                      namespace=ns)
     cls.__module__ = "kioverif_synth"
     _CACHE[sid] = cls
